@@ -28,6 +28,7 @@ func init() {
 		NotCovered: "termination (unbounded recursion or loops in cl and gogen: stack overflow is a fatal error no recover catches), the clause that every reported error position lies inside the compiled files, and panics raised inside gogen's own goroutine-free code are covered only through (1).",
 		Run:        runC07,
 		Controls: []Control{
+			{Name: "type-closure-cleared-after-run", File: "cl/compile.go", Old: "\tif typ := ld.typ; typ != nil {\n\t\tld.typ = nil\n\t\ttyp()\n", New: "\tif typ := ld.typ; typ != nil {\n\t\ttyp()\n\t\tld.typ = nil\n", Expect: "once-disarmed-first/doNewType:ld.typ"},
 			{Name: "loader-removed-after-load", File: "cl/compile.go", Old: "\t\tdelete(p.syms, name)\n\t\tf.load()\n", New: "\t\tf.load()\n\t\tdelete(p.syms, name)\n", Expect: "loader-reentrancy/pkgCtx.loadSymbol"},
 			{Name: "recover-after-newpackage", File: f, Old: "\tif enableRecover {\n\t\tdefer func() {\n\t\t\tif e := recover(); e != nil {\n\t\t\t\tctx.handleRecover(e, nil)\n\t\t\t\terr = ctx.errs.ToError()\n\t\t\t}\n\t\t}()\n\t}\n\tp = gogen.NewPackage(pkgPath, pkg.Name, confGox)\n", New: "\tp = gogen.NewPackage(pkgPath, pkg.Name, confGox)\n\tif enableRecover {\n\t\tdefer func() {\n\t\t\tif e := recover(); e != nil {\n\t\t\t\tctx.handleRecover(e, nil)\n\t\t\t\terr = ctx.errs.ToError()\n\t\t\t}\n\t\t}()\n\t}\n", Expect: "recover-first/cl.NewPackage"},
 			{Name: "recover-default-off", File: f, Old: "\tenableRecover = true\n", New: "\tenableRecover = false\n", Expect: "recover-default/cl.enableRecover"},
@@ -99,6 +100,92 @@ func runC07(c *core.Check) {
 		c.Decide(!bad.IsValid() && nLoad > 0, "loader-reentrancy", "pkgCtx.loadSymbol", bad, "the loader is removed from the symbol table before it runs", "pkgCtx.loadSymbol runs a symbol's loader while the loader is still registered in ctx.syms: a reference to the same name from inside the loader (a function whose signature mentions itself through a type, a recursive initialiser) re-enters loadSymbol and runs the loader again without end — unbounded recursion ending in a stack overflow, which no recover converts into an error")
 	} else {
 		c.Bad("anchor", "cl.pkgCtx.loadSymbol", 0, "not found")
+	}
+
+	// ---------- (0b) run-once closures are disarmed before they run: `if f := ld.typ; f != nil { ld.typ = nil; f() }`. The
+	// closure of a type alias resolves its right-hand side, which can reach the same loader again (`type A = B; type B = A`);
+	// a field that is still set when the closure runs makes that re-entry run it again, without end
+	{
+		nOnce := 0
+		for _, fd := range core.AllFuncDecls(pk) {
+			if fd.Body == nil {
+				continue
+			}
+			type once struct {
+				v     types.Object // the local copy
+				field string       // rendered x.F
+			}
+			var onces []once
+			ast.Inspect(fd.Body, func(n ast.Node) bool {
+				as, ok := n.(*ast.AssignStmt)
+				if !ok || as.Tok != token.DEFINE || len(as.Lhs) != 1 || len(as.Rhs) != 1 {
+					return true
+				}
+				sel, ok := ast.Unparen(as.Rhs[0]).(*ast.SelectorExpr)
+				if !ok {
+					return true
+				}
+				if sl := info.Selections[sel]; sl == nil || sl.Kind() != types.FieldVal {
+					return true
+				}
+				t := info.TypeOf(sel)
+				isFn := false
+				if _, ok := t.Underlying().(*types.Signature); ok {
+					isFn = true
+				}
+				if sl, ok := t.Underlying().(*types.Slice); ok {
+					if _, ok := sl.Elem().Underlying().(*types.Signature); ok {
+						isFn = true
+					}
+				}
+				if o := info.Defs[as.Lhs[0].(*ast.Ident)]; isFn && o != nil {
+					onces = append(onces, once{o, nows(core.ExprStr(sel))})
+				}
+				return true
+			})
+			for _, oc := range onces {
+				oc := oc
+				clears := false
+				rangeVars := map[types.Object]bool{}
+				ast.Inspect(fd.Body, func(n ast.Node) bool {
+					switch x := n.(type) {
+					case *ast.AssignStmt:
+						if x.Tok == token.ASSIGN && len(x.Lhs) == 1 && len(x.Rhs) == 1 && nows(core.ExprStr(x.Lhs[0])) == oc.field && isNilIdent(x.Rhs[0]) {
+							clears = true
+						}
+					case *ast.RangeStmt:
+						if identObj(info, x.X) == oc.v && x.Value != nil {
+							if id, ok := x.Value.(*ast.Ident); ok {
+								rangeVars[info.Defs[id]] = true
+							}
+						}
+					}
+					return true
+				})
+				if !clears {
+					continue // not a run-once closure
+				}
+				nOnce++
+				const bCleared flow.State = 1
+				bad := token.NoPos
+				p := &flow.Problem{Body: fd.Body, Info: info}
+				p.Node = func(n ast.Node, st flow.State, record bool) flow.State {
+					if as, ok := n.(*ast.AssignStmt); ok && as.Tok == token.ASSIGN && len(as.Lhs) == 1 && nows(core.ExprStr(as.Lhs[0])) == oc.field {
+						return st | bCleared
+					}
+					for _, call := range flow.Calls(n) {
+						if o := identObj(info, call.Fun); o != nil && (o == oc.v || rangeVars[o]) && record && st&bCleared == 0 {
+							bad = call.Pos()
+						}
+					}
+					return st
+				}
+				flow.Solve(p)
+				c.Decide(!bad.IsValid(), "once-disarmed-first", core.FuncName(fd)+":"+oc.field, bad, "the field is cleared before the saved closure runs", core.FuncName(fd)+" runs the closure saved from "+oc.field+" while the field is still set: a re-entrant call (a self-referential type alias resolving its own right-hand side) finds the closure again and runs it again, without end — a stack overflow that no recover turns into an error")
+			}
+		}
+		c.Analysed("run_once_closures", nOnce)
+		c.Floor("once-disarmed-first", 3)
 	}
 
 	// ---------- (1) NewPackage installs the handler first
